@@ -375,6 +375,7 @@ static void drive_from_start(const Ref& R, MakeFac make, const Eigen::Matrix<S, 
                     hh.str(hc.where);
                     hash_node(hh, F.m_fac_H);
                     L.distinct.insert(hh.h);
+                    if (d == depth) L.sample("{\"factorization\": " + jstr(R.key) + ", \"path\": " + jstr(hc.where) + "}", 4);
                 }
                 if (d < depth)
                     for (long k = 1; k <= m - 1; k++)
